@@ -126,7 +126,74 @@ def main():
                 rac.fail(key, "assignment to the restored copy changed the original", script, "__reduce__")
         except Exception as ex:      # noqa
             rac.fail(key, f"restored manager misbehaves: {type(ex).__name__}: {ex}", script, "__reduce__")
+    rac.section("containers", "managers over the library's own container type (the AttrDict that manager.ref() creates by default, also nested), "
+                "objects with attributes and lists, definitions and follow-up assignments made through the item AND the attribute route; "
+                "frozen managers; also copy.deepcopy: the restored manager's containers show the same contents as the original's after each "
+                "mirrored assignment, and stay independent", "5 scenarios x 2 copy routes")
+    SC = {
+        "default container, item route": ("m = xdeps.Manager(); r = m.ref(); r['a'] = 1.0; r['b'] = r['a'] * 2", "_",
+                                          ["r['a'] = 7.0", "r['b'] = 1.0", "r['a'] = 2.0"]),
+        "default container, attribute route": ("m = xdeps.Manager(); r = m.ref(); r.a = 1.0; r.b = r.a * 2; r['c'] = r['a'] + 1", "_",
+                                               ["r.a = 7.0", "r['a'] = 3.0", "r.b = 1.0", "r.a = -4.0"]),
+        "nested AttrDict": ("from xdeps.utils import AttrDict\nd = AttrDict(q=AttrDict(k1=1.0, k2=2.0), s=0.0)\nm = xdeps.Manager(); r = m.ref(d, 'v')\n"
+                            "r['q'].k2 = r['q'].k1 * 3; r.s = r.q.k2 + 1", "v", ["r['q'].k1 = 5.0", "r.q.k1 = 6.0", "r['q']['k1'] = 7.0", "r.q.k2 = 0.5"]),
+        "object with attributes": ("class O:\n    pass\nglobals()['O'] = O\no = O(); o.x = 1.0; o.y = 0.0\nm = xdeps.Manager(); r = m.ref(o, 'o')\nr.y = r.x + 1",
+                                   "o", ["r.x = 4.0", "r.y = 2.0", "r.x = 5.0"]),
+        "frozen": ("m = xdeps.Manager(); r = m.ref(); r['a'] = 1.0; r['b'] = r['a'] * 2; m.freeze_tree()", "_", ["r['a'] = 7.0", "r.a = 8.0"]),
+    }
+    SNAP = ("def snap(x, depth=0):\n    if isinstance(x, dict):\n        return ('dict', sorted((str(k), snap(v, depth + 1)) for k, v in x.items()), "
+            "sorted((str(k), snap(v, depth + 1)) for k, v in vars(x).items()) if hasattr(x, '__dict__') and depth < 4 else None)\n"
+            "    if isinstance(x, (list, tuple)):\n        return [snap(v, depth + 1) for v in x]\n"
+            "    if hasattr(x, '__dict__') and not callable(x):\n        return ('obj', sorted((k, snap(v, depth + 1)) for k, v in vars(x).items()))\n    return x\n")
+    envs = {}
+    exec(SNAP, envs)
+    snap = envs["snap"]
+
+    class O:      # (module-level name needed for pickling objects of a locally defined class)
+        pass
+    globals()["O"] = O
+    O.__qualname__ = "O"
+    for name, (setup, root, follow) in SC.items():
+        for route in ("pickle", "deepcopy"):
+            key = f"containers {name} {route}"
+            cp = "pickle.loads(pickle.dumps(m))" if route == "pickle" else "copy.deepcopy(m)"
+            scr = PRELUDE + "import xdeps, pickle, copy\n" + SNAP + setup.replace("globals()['O'] = O\n", "") + f"\nm2 = {cp}\nr2 = m2.containers[{root!r}]\n" + \
+                "assert snap(r._owner) == snap(r2._owner), (snap(r._owner), snap(r2._owner))\n" + "".join(
+                    f"{st}\n{st.replace('r', 'r2', 1)}\nassert snap(r._owner) == snap(r2._owner), ({st!r}, snap(r._owner), snap(r2._owner))\n" for st in follow)
+            env = dict(xdeps=xdeps_mod(), pickle=pickle, copy=copy, O=O)
+            try:
+                exec(setup.replace("class O:\n    pass\nglobals()['O'] = O\n", ""), env)
+                m = env["m"]
+                m2 = pickle.loads(pickle.dumps(m)) if route == "pickle" else copy.deepcopy(m)
+            except Exception as ex:      # noqa
+                rac.fail(key, f"C12 {name}: {route} of the manager raised {type(ex).__name__}: {ex}", scr, "__reduce__")
+                continue
+            r, r2 = env["r"], m2.containers[root]
+            rac.case(key, sample=dict(scenario=name, route=route))
+            bad = None
+            if r2._owner is r._owner:
+                bad = "the copy shares its container with the original"
+            elif snap(r._owner) != snap(r2._owner):
+                bad = f"restored contents {snap(r2._owner)} != original {snap(r._owner)}"
+            else:
+                for st in follow:
+                    try:
+                        exec(st, dict(r=r))
+                        exec(st, dict(r=r2))
+                    except Exception as ex:      # noqa
+                        bad = f"{st} raised {type(ex).__name__}: {ex}"
+                        break
+                    if snap(r._owner) != snap(r2._owner):
+                        bad = f"after {st} on both: original {snap(r._owner)}, restored {snap(r2._owner)}"
+                        break
+            if bad:
+                rac.fail(key, f"C12 {name} ({route}): {bad}", scr, "AttrDict")
     return rac.finish()
+
+
+def xdeps_mod():
+    import xdeps
+    return xdeps
 
 
 if __name__ == "__main__":
